@@ -1607,3 +1607,42 @@ SPECS["C05"]["level_text"] += (' Props/C05S (track rdrworld): StreamChunker chun
     'range and the byte-level record = the FLATTENED IOVEC, None, the same I/O error) and leave the reader in the same position; proof: the iovec satisfies '
     'the single-iovec invariant IovInv and every detached slice is held w.r.t. it (Geo), decode_anchored of a chunk appends exactly the decoder\'s emits '
     '(decFeed_pushed) and leaves the chunker\'s buffered tail and its bytes alone (FrameOut), pump touches no detached slice but its own (pumpW_only).')
+# ---- track scale: LARGE-MAGNITUDE / LONG-HISTORY generator profiles (harness/src/scale_*.rs).  The families wrap the
+# existing executors, and `wpmodel scale_*` wraps the existing model drivers (lean/Woodpile/Driver/Scale.lean): run-length ops
+# (`rep`, `extendrun`), digested observations (`terse`), harness-only cases (`quiet`, where the list model would need minutes),
+# owners dropped by the unwinder of a caught panic (`scoped_panic`).  Few cases, many shards: a case moves megabytes.
+_SCALE_NOTE = (" Scale profiles (families scale_*): the same executors and model drivers behind a wrapper that adds run-length ops and digested "
+               "observations, aimed at regimes the ordinary generators never reach: arena chunks of the last size class (>= 1 MiB) being exhausted, "
+               "rewound or replaced while clones / anchored slices / zero-count anchors still reach them; regions larger than 1 MiB with placeholders at "
+               "in-slice offsets around 2^16 / 2^20 / 2^21 (2^24 harness-only); 255 ... 4097 (65537 harness-only) live slices, placeholders and anchors; "
+               "histories of thousands of rounds; EINTR bursts of 255 ... 4097 (2^16 ... 2^21+1 harness-only) at a carry-over refill; block sizes 2^k-1 "
+               "that leave one byte of room in the arena chunk; owners of arena memory dropped by the unwinder of a caught panic. Extra direct oracles "
+               "in the wrapper: C03 readable = total_size when nothing is pending, C05 overlapping arena slices in one iovec / bytes changing under a "
+               "live anchored slice (C11 / C12: the executors' own reference-layout and accessor oracles on 255 ... 65537 pairs), C01 the real decoder gives the input back from drained ++ finish(), C09 drained ++ consumable is a growing prefix and drained ++ finish() equals a one-call run, C10 counters after a "
+               "caught panic, C17 request sizes. 'harness-only' cases run the real code and the oracles but are not replayed by the model.")
+
+def _scale(pid, name, obs, quick, thorough, search, shards_q=8):
+    SPECS[pid]["families"].append(dict(name=name, quick=quick, thorough=thorough, search=search,
+                                       shards=dict(quick=shards_q, thorough=16), obs_prefixes=obs, timeout=3600))
+    if "Scale profiles" not in SPECS[pid]["level_text"]:
+        SPECS[pid]["level_text"] += _SCALE_NOTE
+
+_scale("C03", "scale_iovec", ["A", "R", "P"], 8, 320, 640)
+_scale("C04", "scale_iovec", ["A", "R", "P"], 8, 320, 640)
+_scale("C05", "scale_iovec", ["A", "S", "T", "L", "R", "P"], 8, 320, 640)
+_scale("C05", "scale_codec", ["A", "S", "T", "L", "R", "G"], 4, 160, 320, 4)
+_scale("C09", "scale_codec", ["A", "S", "G", "R"], 4, 160, 320, 4)
+_scale("C10", "scale_iovec", ["L", "P"], 8, 320, 640)
+_scale("C10", "scale_codec", ["L", "G"], 4, 160, 320, 4)
+_scale("C20", "scale_iovec", ["A", "R", "P"], 8, 320, 640)
+_scale("C06", "scale_reader", None, 16, 320, 640)
+_scale("C08", "scale_chunker", None, 16, 320, 640)
+_scale("C17", "scale_chunker", None, 16, 320, 640)
+_scale("C17", "scale_codec", ["A", "S", "G", "R"], 4, 160, 320, 4)
+# counts of 2^16 ... 2^25 bytes (offers of 8 MiB and more), hard errors / EOF / EINTR bursts after a small delivery
+_scale("C17", "scale_readn", None, 8, 160, 320, 4)
+# 255 ... 65537 pairs per message / view (256-pair messages replayed by the model, larger ones harness-only)
+_scale("C11", "scale_tlv", None, 6, 120, 240, 8)
+_scale("C12", "scale_tlvview", None, 8, 160, 320, 4)
+# > 1024 borrowed pieces through the Encoder / Decoder with no drain, megabyte streams: round trip of drained ++ finish()
+_scale("C01", "scale_codec", ["A", "R"], 4, 160, 320, 4)
